@@ -39,7 +39,7 @@ def _gen_backpressure(rng, tier):
         tag = 8000000 + i * 10
         slow = [["sleep", wait], ["recv_until_end"], ["respond", 200, [(b"x-tag", b"%d" % tag)], b"slow-%d" % tag]]
         quick = [["recv_until_end"], ["respond", 200, [(b"x-tag", b"%d" % (tag + 1))], b"quick-%d" % (tag + 1)]]
-        carrier = rng.choice(["h2", "h2", "h1", "ws"])
+        carrier = rng.choice(["h2", "h2", "h1", "ws", "h1-early"])
         base = {"backends": ["asyncio", "trio"], "config": {"keep_alive_timeout": 5000, "max_app_queue_size": qsize}, "conn": {},
                 "sched": {"seed": rng.randrange(1 << 30)}, "horizon": 100.0, "source": "c16"}
         if carrier == "h2":
@@ -52,6 +52,16 @@ def _gen_backpressure(rng, tier):
             yield dict(base, family="c16:backpressure.h2", apps={"default": quick, "by_tag": {str(tag): slow, str(tag + 1): quick}},
                        client=[["feed", blob], ["settle"], ["advance", wait + 1.0], ["settle"]], reactor={"kind": "h2", "credit": "auto"},
                        truth={"requests": [{"method": "POST"}, {"method": "GET"}]})
+        elif carrier == "h1-early":
+            # the application answers without having read any of the body and then keeps receiving (as one that watches for the disconnect
+            # does): its queue is short of full / exactly full / over full (the reader waiting for room) when its response ends
+            nmsg = max(1, qsize + rng.choice([-3, -2, -1, 0, 1, 2, 6]))  # + the end-of-body message
+            early = [["sleep", wait], ["respond", 200, [(b"x-tag", b"%d" % tag)], b"early-%d" % tag], ["linger", 5.0]]
+            body = b"".join(b"4\r\nc%03d\r\n" % k for k in range(nmsg)) + b"0\r\n\r\n"
+            blob = b"POST /t%d HTTP/1.1\r\nHost: h\r\nTransfer-Encoding: chunked\r\n\r\n" % tag + body
+            yield dict(base, family="c16:backpressure.h1-early", apps={"default": quick, "by_tag": {str(tag): early}},
+                       client=[["feed", blob], ["settle"], ["advance", wait + 1.0], ["settle"], ["advance", 10.0], ["settle"]],
+                       truth={"requests": [{"method": "POST"}]})
         elif carrier == "h1":
             body = b"".join(b"4\r\nc%03d\r\n" % k for k in range(nmsg)) + b"0\r\n\r\n"
             blob = b"POST /t%d HTTP/1.1\r\nHost: h\r\nTransfer-Encoding: chunked\r\n\r\n" % tag + body + b"GET /t%d HTTP/1.1\r\nHost: h\r\n\r\n" % (tag + 1)
